@@ -54,7 +54,7 @@ CLAIMED = {
  "C06": dict(cat="other", ref="DESIGN.md 4/C06",
    text="One symbolic batch of the real per-worker loop (nested my_function located by name, free variables symbolic): file position before each write, rows == kept range with the documented taper margins, sync columns bit-identical, "
         "saturation slice (flags computed on the calibrated samples as read, before tapering), RMS/timestamp positions, loop invariant position == f(batch index), padding; the same for float32 output with the byte sizes computed by executing the set-up statements (positions in bytes of the output type); the set-up statements that create / size the files under the ghost file system: a fresh run truncates output, RMS and timestamp files, an appending run starts each at its current end, the per-sample saturation file is created with or without the rms (F-C06-2, repaired) and, when appending, keeps the entries of the runs already in the output and adds this run's after them (F-C06-3, repaired); the worker's start batch and boundary formulas; lemmas: batches tile [0,ns), consecutive workers leave no gap, writes are position-determined. The statements after the workers have finished run under contract too: RMS rows (batches x channels), timestamps and the per-sample saturation vector are published under the quality folder asked for, and the per-sample file stays next to the output for the next appending run. The data flow of the opaque steps of a batch is stated as well: the last batch is re-aligned with the delays of the header resolved for the run, dead / noisy channels are repaired from the whole batch with the labels and coordinates of the run before the rows outside the brain are set aside.",
-   note="All filtering is opaque (shapes only); saturation() through C16's contract; joblib schedules are not modelled (position-determinism is what is proved); byte identity across worker counts (incl. more workers than batches) / QC lengths via the bounded stand-in with a NumPy/SciPy shim for pyfftw. F-C06-1 (phantom batch) was repaired: a worker whose first batch is not real returns at once, proved to touch nothing and to lose nothing.",
+   note="All filtering is opaque (shapes only); saturation() through C16's contract; joblib schedules are not modelled (position-determinism is what is proved); byte identity across worker counts (incl. more workers than batches) / QC lengths via the bounded stand-in with a NumPy/SciPy shim for pyfftw. F-C06-1 (phantom batch) was repaired: a worker whose first batch is not real returns at once, proved to touch nothing and to lose nothing. Known finding F-C06-4: with append and padding together the saturation entries of later runs are shifted by the accumulated padding against the output samples.",
    tech="AST->z3 VC generation on a nested closure with ghost file positions + arithmetic lemmas (deductive) + bounded native stand-in"),
  "C02": dict(cat="other", ref="DESIGN.md 4/C02",
    text="Ghost-file-system contracts: companion resolution for data / compressed / metadata paths under every combination of existing files; compress_file, decompress_file, decompress_to_scratch with a normal and an exceptional outcome of mtscomp: "
